@@ -3,7 +3,10 @@ import vlib
 from checkflow import Interactive
 
 PROP = "C16"
-LAKE_TARGETS = ["Uflow.Props.C16", "uflow_driver"]
+LAKE_TARGETS = ["Uflow.Props.C16", "Uflow.Props.C16Flips", "uflow_driver"]
+PROPS_FILES = ["C16", "C16Flips"]
+NATIVE_OK = ("C16_reject_flips",)
+NATIVE_FILES = ("Uflow/Lemmas/CrcHD4.lean",)
 TRUSTED_BASE = [
     "Lean 4.33 kernel; axioms per theorem listed under coverage.axioms (subset of propext, Classical.choice, Quot.sound)",
     "tools/extract_consts.py: reads frame ids, payload sizes, header sizes, MAX_FRAME_SIZE, the CRC polynomial and the 256 table words from /repo/src",
@@ -12,7 +15,7 @@ TRUSTED_BASE = [
 ]
 ASSUMPTIONS = [
     "bytes on the wire are < 256 (the model uses Nat for bytes)",
-    "CRC <=4-flip rejection: proved for the model up to the statement in Props/C16 (see coverage.partial); sampled on the implementation by the flip stream",
+    "C16_reject_flips (<=4 flips) rests on one native_decide (Uflow/Lemmas/CrcHD4.lean: 6.9e7-pair search, axiom Uflow.Crc.hd4_search._native.native_decide.ax_1_1, i.e. the Lean compiler is trusted for that evaluation); C16_reject_flips3 (<=3 flips) is kernel-only; the flip stream samples the same claim on the implementation",
 ]
 PARTIAL = {}
 RULE = ("cases are generated from one splitmix64 stream (seed ^ property id): representable frames of all nine types biased to the "
